@@ -767,9 +767,13 @@ def p_mp_createClass(p):
                                     _format("Class {0} depends on class {1!A} "
                                             "which is not in repository.",
                                             cc_path, cln))
+                            # If that MOF file defines the class, its
+                            # creation records the class name as known. It
+                            # must not be recorded if the file does not
+                            # define it.
                             p.parser.mofcomp.compile_file(moffile, ns)
-
-                        p.parser.classnames[ns].append(cln)
+                        else:
+                            p.parser.classnames[ns].append(cln)
                     fixedRefs = True
                     continue  # Try again to create the class
 
